@@ -275,6 +275,7 @@ class FuncInfo:
     dispatch_of: Optional[str] = None  # registered implementation of this method
     dispatch_type: Optional[str] = None  # 'list' | 'jax.Array' ...
     is_dispatch_base: bool = False
+    forwards_to: Optional[str] = None  # the private function this one's body was taken from (forwarding stub)
 
     @property
     def lineno(self) -> int:
@@ -371,6 +372,84 @@ class Program:
         self.functions: Dict[str, FuncInfo] = {}
         self._subclasses: Dict[str, Set[str]] = {}
         self._load()
+        self._collapse_forwarders()
+
+    # ------------------------------------------------------------- forwarders
+    def _collapse_forwarders(self):
+        """A function whose whole body is `return <private function of the same class / module>(its own parameters, in
+        order)` is a forwarding stub: the behaviour of the name lives in the callee.  The stub's body is replaced by the
+        callee's body (parameters renamed by position) so that every rule that reads a function by its public name
+        sees what that name computes, wherever a refactoring has parked the statements.  The callee stays in the
+        model as the private function it is."""
+        import copy
+
+        def forwarded(fi: FuncInfo) -> Optional[FuncInfo]:
+            node = fi.node
+            if isinstance(node, ast.Lambda) or fi.is_abstract or fi.is_dispatch_base:
+                return None
+            body = fi.real_body()
+            if len(body) != 1 or not isinstance(body[0], ast.Return) or not isinstance(body[0].value, ast.Call):
+                return None
+            c = body[0].value
+            if c.keywords or any(isinstance(a, ast.Starred) for a in c.args):
+                return None
+            own = [p_.name for p_ in fi.params if p_.kind == "pos"]
+            if len(own) != len(fi.params):
+                return None
+            callee = None
+            if fi.cls is not None and isinstance(c.func, ast.Attribute) and isinstance(c.func.value, ast.Name) and \
+                    own and c.func.value.id == own[0] and not fi.is_staticmethod and not fi.is_classmethod:
+                ci = self.classes.get(fi.cls)
+                callee = ci.methods.get(c.func.attr) if ci else None
+                passed = own[1:]
+            elif fi.cls is None and isinstance(c.func, ast.Name):
+                callee = self.modules[fi.module].functions.get(c.func.id)
+                passed = own
+            else:
+                return None
+            if callee is None or callee is fi or not callee.name.startswith("_") or callee.name.startswith("__"):
+                return None
+            if not all(isinstance(a, ast.Name) for a in c.args) or [a.id for a in c.args] != passed:
+                return None
+            cp = [p_.name for p_ in callee.params if p_.kind == "pos"]
+            if len(cp) != len(callee.params) or len(cp) != len(own) or callee.is_abstract or isinstance(callee.node, ast.Lambda):
+                return None
+            if callee.decorators:
+                return None
+            if any(isinstance(n, (ast.Yield, ast.YieldFrom)) for n in ast.walk(callee.node)):
+                return None
+            return callee
+
+        for _round in range(3):
+            changed = False
+            for fi in list(self.functions.values()) + [m for ci in self.classes.values() for m in ci.methods.values()]:
+                callee = forwarded(fi)
+                if callee is None:
+                    continue
+                own = [p_.name for p_ in fi.params]
+                cp = [p_.name for p_ in callee.params]
+                new_body = copy.deepcopy(callee.node.body)
+                ren = {a: b for a, b in zip(cp, own) if a != b}
+                if ren:
+                    # parameter names differ: rename (only when the new names do not clash with the callee's locals)
+                    local_names = {n.id for st in new_body for n in ast.walk(st) if isinstance(n, ast.Name)}
+                    if any(b in local_names and b not in cp for b in ren.values()):
+                        continue
+
+                    class R(ast.NodeTransformer):
+                        def visit_Name(self, n):
+                            if n.id in ren:
+                                return ast.copy_location(ast.Name(id=ren[n.id], ctx=n.ctx), n)
+                            return n
+                    new_body = [R().visit(st) for st in new_body]
+                doc = fi.body()[:len(fi.body()) - len(fi.real_body())]
+                node = copy.copy(fi.node)
+                node.body = doc + new_body
+                fi.node = node
+                fi.forwards_to = callee.qualname
+                changed = True
+            if not changed:
+                break
 
     # ------------------------------------------------------------------ load
     def _load(self):
